@@ -121,6 +121,14 @@ CHECKS.update({
          "DESIGN.md §3 C05"),
 })
 
+CHECKS.update({
+ "C16": ("E2 wire (real link setup, real link workers) + E5 race detector", "exploration",
+         "runtime monitor: registry/routing-table invariants evaluated at structural quiescent points of seeded churn sequences (connect, cross-connect with seeded message delays and with the directed message order forced by message holds at the wire, local/remote/manager close, I/O error, EOF, break mid-handshake) against the set of link objects the harness knows to be alive; Go race detector on the same workload",
+         "2..5 real peering managers with routing tables; after every event all setups have returned and every link whose connection was closed reports closing; then every live link must be found by peer and by label, no closing link may be found or listed, live labels must be unique and non-zero, and peer routes must exist for exactly the peers with a live link with no route through a next hop without live link.",
+         "Goroutine interleavings are sampled (scheduler + seeded message delays + one forced cross-connect order), not enumerated.",
+         "DESIGN.md §3 C16"),
+})
+
 NOT_YET = "check not implemented yet in this revision of /verif (work in progress; see DESIGN.md §8)"
 
 def main():
